@@ -14,12 +14,6 @@ Section RefSem.
 Context {Q : Type}.
 Variable O : ops Q.
 
-(* [stale name idx]: the function value (name, idx) no longer denotes what its name
-   denotes in the complete program.  With [fun _ _ => false] this is the plain static
-   semantics; the checked variant used by the correctness theorem answers [Stale]
-   when such a value is called (DESIGN.md §7 #2: the implementation rebinds it). *)
-Variable stale : string -> nat -> bool.
-
 (* [lits = (strings, structs)]: whether string literals with parts / struct literals are
    evaluated at all.  (true, true) is the language; the correctness theorem is proved
    for the restrictions stated in Props/C09.v, a disabled construct evaluates to Wrong. *)
@@ -147,11 +141,10 @@ Fixpoint eval (n : nat) (W : world) (vg vn vf : nat) (L : list (string * value Q
             bind (ev callee) (fun c =>
               match c with
               | VFun (FNormal name (S i)) =>
-                  if stale name (S i) then Stale
-                  else match nth_error (w_fns W) i with
-                       | Some (_, fd) => call (S i) fd vs
-                       | None => Wrong
-                       end
+                  match nth_error (w_fns W) i with
+                  | Some (_, fd) => call (S i) fd vs
+                  | None => Wrong
+                  end
               | VFun (FForeign name) =>
                   if mem name (procs O ++ w_foreign W) then ffi O name vs else Wrong
               | _ => Wrong
@@ -255,28 +248,7 @@ Definition run (n : nat) (p : program Q) : res (list string * option (value Q)) 
 
 End RefSem.
 
-(* the names of the program's (non-foreign) functions, as the complete program
-   defines them: chunk 0 is <main> *)
-Definition fn_names {Q} (p : program Q) : list string :=
-  "<main>"%string ::
-  flat_map (fun s => match s with SFn f _ _ _ => [f] | _ => [] end) p.
-
-(* index of the LAST definition of a name in the complete program *)
-Definition final_idx {Q} (p : program Q) (name : string) : option nat :=
-  match find_last name (map (fun n => (n, tt)) (fn_names p)) with
-  | Some (i, _) => Some i
-  | None => None
-  end.
-
-(* a function value is stale when its name has been (or will be) bound again *)
-Definition stale_in {Q} (p : program Q) (name : string) (idx : nat) : bool :=
-  match final_idx p name with
-  | Some i => negb (Nat.eqb i idx)
-  | None => true
-  end.
-
-Definition run_static {Q} (O : ops Q) := run O (fun _ _ => false) (true, true).
-Definition run_checked {Q} (O : ops Q) (n : nat) (p : program Q) := run O (stale_in p) (true, true) n p.
-(* the fragment covered by the proof: everything except string literals and struct
-   LITERALS (string/struct values, field access and all other constructs are covered) *)
-Definition run_checked_core {Q} (O : ops Q) (n : nat) (p : program Q) := run O (stale_in p) (false, false) n p.
+(* the language *)
+Definition run_ref {Q} (O : ops Q) (n : nat) (p : program Q) := run O (true, true) n p.
+(* without struct literals (fragment of the error theorem) *)
+Definition run_ref_nostruct {Q} (O : ops Q) (n : nat) (p : program Q) := run O (true, false) n p.
